@@ -67,6 +67,11 @@ def plan(tier, seed):
                 U += u(c, 'fresh_vs_fixed', 1, count=60, size=size)
         for c in ({'p': 2, 'q': 0, 'r': 1}, {'p': 1, 'q': 1, 'r': 1}, {'p': 3, 'q': 0, 'r': 0}, {'p': 1, 'q': 0, 'r': 2}):
             U += u(dict(c, opts={'graded': True}), 'gradeblocks', 1, count=40, cap=8)
+        # two options at once (each changes which code path generates the function)
+        for c, o in (({'p': 2, 'q': 0, 'r': 1}, {'graded': True, 'cse': False}), ({'p': 1, 'q': 0, 'r': 2}, {'graded': True, 'cse': False}),
+                     ({'p': 2, 'q': 1, 'r': 0}, {'graded': True, 'wrapper': 'identity'}), ({'p': 2, 'q': 0, 'r': 1}, {'cse': False, 'wrapper': 'wraps'}),
+                     ({'p': 2, 'q': 0, 'r': 1}, {'graded': True, 'symcls': 'sympy'}), ({'p': 3, 'q': 0, 'r': 0}, {'cse': False, 'symcls': 'sympy'})):
+            U += u(dict(c, opts=o), 'gradeblocks', 1, count=30, cap=8)
         for c, w in zip(rng.sample(d2, 3) + rng.sample(d3, 3), ('wraps', 'identity') * 3):
             U += u(dict(c, opts={'wrapper': w}), 'sparse', 1, count=120, cap=4, perm=0.6, min_size=2)
         nshards = 16
@@ -99,6 +104,9 @@ def plan(tier, seed):
             U += u({'p': 2, 'q': 1, 'r': 1, 'start_index': s}, 'random', 1, count=100, cap=8)
         for c in gen.pqr_all(2, 4):
             U += u(dict(c, opts={'graded': True}), 'gradeblocks', 1, count=120, cap=11)
+        for c in rng.sample(gen.pqr_all(2, 4), 12):
+            for o in ({'graded': True, 'cse': False}, {'graded': True, 'wrapper': 'identity'}, {'cse': False, 'wrapper': 'wraps'}, {'graded': True, 'symcls': 'sympy'}):
+                U += u(dict(c, opts=o), 'gradeblocks', 1, count=40, cap=8)
         for c, w in zip(rng.sample(d2, 6) + rng.sample(d3, 14), ('wraps', 'identity') * 10):
             U += u(dict(c, opts={'wrapper': w}), 'sparse', 1, count=300, cap=4, perm=0.6, min_size=2)
         # default basis and custom basis of one signature in one process, same key patterns (state shared between Algebra instances)
